@@ -48,16 +48,22 @@ impl OutputManager {
             })?;
         }
 
-        // Test write permissions by creating a temporary file
-        let test_file = self.output_dir.join(".write_test");
-        fs::write(&test_file, "test").map_err(|e| {
+        // Check write permissions without creating anything in the directory: a probe file
+        // would modify the directory on every run (re-triggering file watchers and cargo's
+        // rerun-if-changed) and would clobber a user's file of the same name
+        let metadata = fs::metadata(&self.output_dir).map_err(|e| {
             OutputError::PermissionDenied(format!(
-                "Cannot write to output directory {}: {}",
+                "Cannot access output directory {}: {}",
                 self.output_dir.display(),
                 e
             ))
         })?;
-        fs::remove_file(&test_file).ok(); // Ignore errors on cleanup
+        if !metadata.is_dir() || metadata.permissions().readonly() {
+            return Err(OutputError::PermissionDenied(format!(
+                "Cannot write to output directory {}",
+                self.output_dir.display()
+            )));
+        }
 
         Ok(())
     }
